@@ -351,11 +351,65 @@ func runC20NoHosts() (string, string) {
 	return strings.Join(events, " "), sp.snapshot()
 }
 
+// runC20Abrupt: a client pipelines more requests than the session takes in at once (the reader is busy handing them
+// on) to slow nodes and resets its connection: replies can no longer be written. Whatever was read is counted once, by
+// its outcome: at quiescence the equations hold.
+func runC20Abrupt(n int) string {
+	cl := newSimCluster(2)
+	defer cl.close()
+	cl.setLayout([][3]int{{0, 8000, 0}, {8001, 16383, 1}})
+	sp := startRedisProxy([]string{cl.nodes[0].addr, cl.nodes[1].addr}, 0)
+	defer stopProxy(sp)
+	sp.waitSlotsLoaded(1)
+	waitFor(2*time.Second, func() bool { return sp.counter("downstream.cx_destroy_total") >= 1 }) // the launcher's probe
+	cl.mu.Lock()
+	for _, nd := range cl.nodes {
+		nd.delayMs = 20
+	}
+	cl.mu.Unlock()
+	sc := dialProxy(sp.addr)
+	var buf []byte
+	for i := 0; i < n; i++ {
+		buf = append(buf, bulkArr([]byte("get"), []byte("ab"+strconv.Itoa(i))).bytes()...)
+	}
+	sc.send(buf, nil)
+	time.Sleep(30 * time.Millisecond)
+	if tc, ok := sc.c.(*net.TCPConn); ok {
+		tc.SetLinger(0)
+	}
+	sc.close()
+	conserved := func() bool {
+		t, ok, ko := sp.counter("downstream.rq_total"), sp.counter("downstream.rq_success_total"), sp.counter("downstream.rq_failure_total")
+		return t == ok+ko && sp.gauge("downstream.cx_active") == 0 && sp.counter("downstream.cx_total") == sp.counter("downstream.cx_destroy_total")
+	}
+	// quiescence: the equations hold and nothing moves any more
+	last, stable := uint64(0), time.Now()
+	waitFor(4*time.Second, func() bool {
+		t := sp.counter("downstream.rq_total") + sp.counter("downstream.rq_success_total") + sp.counter("downstream.rq_failure_total")
+		if t != last {
+			last, stable = t, time.Now()
+		}
+		return conserved() && time.Since(stable) > 300*time.Millisecond
+	})
+	snap := sp.snapshot()
+	parts := strings.Split(snap, " || ")
+	res := "conserved"
+	if !conserved() {
+		res = "NOT-CONSERVED:" + parts[0]
+	}
+	return res + " || " + strings.Join(parts[2:], " || ")
+}
+
 func init() {
 	register("c20", func() {
 		cases, impl := create("cases.txt"), create("impl.txt")
 		hist := map[string]int{}
 		r := newRng(*fSeed)
+		for _, n := range []int{40, 70, 120} {
+			fmt.Fprintf(cases, "ABRUPT %d\n", n)
+			fmt.Fprintln(impl, runC20Abrupt(n))
+			hist["connection reset with replies pending"]++
+		}
 		{
 			ev, snap := runC20NoHosts()
 			fmt.Fprintln(cases, ev)
